@@ -143,15 +143,7 @@ func (c *CodecPDClient) ScanRegions(ctx context.Context, startKey []byte, endKey
 	if err != nil {
 		return nil, errors.WithStack(err)
 	}
-	for _, region := range regions {
-		if region != nil {
-			err = c.decodeRegionKeyInPlace(region)
-			if err != nil {
-				return nil, err
-			}
-		}
-	}
-	return regions, nil
+	return c.decodeScannedRegions(regions)
 }
 
 // BatchScanRegions encodes the key before send requests to pd-server and decodes the
@@ -166,15 +158,7 @@ func (c *CodecPDClient) BatchScanRegions(ctx context.Context, keyRanges []router
 	if err != nil {
 		return nil, errors.WithStack(err)
 	}
-	for _, region := range regions {
-		if region != nil {
-			err = c.decodeRegionKeyInPlace(region)
-			if err != nil {
-				return nil, err
-			}
-		}
-	}
-	return regions, nil
+	return c.decodeScannedRegions(regions)
 }
 
 // SplitRegions split regions by given split keys
@@ -184,6 +168,25 @@ func (c *CodecPDClient) SplitRegions(ctx context.Context, splitKeys [][]byte, op
 		keys = append(keys, c.codec.EncodeRegionKey(splitKeys[i]))
 	}
 	return c.Client.SplitRegions(ctx, keys, opts...)
+}
+
+// decodeScannedRegions decodes the regions of a scan answer. PD lists every region that touches the encoded range;
+// one that touches it without holding a key of the keyspace (its bounds are short keys between the last key of the
+// keyspace and the keyspace's end key) is skipped, as decodeRegionError does for EpochNotMatch.
+func (c *CodecPDClient) decodeScannedRegions(regions []*router.Region) ([]*router.Region, error) {
+	kept := regions[:0]
+	for _, region := range regions {
+		if region != nil {
+			if err := c.decodeRegionKeyInPlace(region); err != nil {
+				if apicodec.IsKeyOutOfBound(err) {
+					continue
+				}
+				return nil, err
+			}
+		}
+		kept = append(kept, region)
+	}
+	return kept, nil
 }
 
 func (c *CodecPDClient) processRegionResult(region *router.Region, err error) (*router.Region, error) {
